@@ -2752,10 +2752,18 @@ class Parameters:
         param_values = self_.values()
         params = {name: param_values[name] for name in param_names}
         self_._TRIGGER = True
-        self_.update(dict(params, **triggers))
-        self_._TRIGGER = False
-        self_._events += events
-        self_._state_watchers += watchers
+        try:
+            self_.update(dict(params, **triggers))
+        finally:
+            self_._TRIGGER = False
+            # Re-queue what was pending before the trigger, in order, and
+            # without queueing a watcher twice (inside an open batch the
+            # triggered events are still pending at this point).
+            self_._events = events + self_._events
+            self_._state_watchers = watchers + [
+                w for w in self_._state_watchers
+                if not any(w is pending for pending in watchers)
+            ]
 
     def _update_event_type(self_, watcher, event, triggered):
         """Return an updated Event object with the type field set appropriately."""
